@@ -618,6 +618,125 @@ impl TypedScenario for C03Foreign {
     }
 }
 
+// ---- small outgoing datagram buffer ----------------------------------------------------------------
+
+/// The sender's outgoing datagram buffer is smaller than, or a few times, one datagram. What may
+/// be sent is bounded by the advertised maximum only - room in the local queue is a matter of
+/// eviction, never of "too large". One datagram at a time, the network drained in between (so
+/// quinn's eviction path - which has an accounting defect of its own in quinn-proto 0.11.17 - is
+/// never entered).
+#[derive(Serialize, Deserialize, Clone, Debug)]
+pub struct SmallBufPlan {
+    pub seed: u64,
+    pub rt: RtKnobs,
+    pub net: NetCfg,
+    pub from_client: bool,
+    pub send_buf: usize,
+    /// payload lengths; negative = max_datagram_size() - (|l| - 1)
+    pub lens: Vec<i64>,
+}
+
+pub fn exec_small_buf(p: &SmallBufPlan, trace: bool) -> Exec {
+    let mut ex = Exec::new();
+    let p = Arc::new(p.clone());
+    let p2 = p.clone();
+    let netslot: Arc<Mutex<Option<SimNet>>> = Arc::new(Mutex::new(None));
+    let ns2 = netslot.clone();
+    let out = simrt::run(&p.rt, p.seed, Duration::from_secs(120), move || async move {
+        let p = p2;
+        let net = SimNet::new(p.net.clone(), trace);
+        *ns2.lock().unwrap() = Some(net.clone());
+        let mut small = EpKnobs::default();
+        small.dgram_send_buf = p.send_buf;
+        let big = EpKnobs::default();
+        let pair = if p.from_client { harness::pair(&net, p.seed, &small, &big) } else { harness::pair(&net, p.seed, &big, &small) };
+        let (cconn, sconn) = harness::establish(&pair, &harness::default_url()).await.map_err(|e| format!("establish: {e}"))?;
+        let (tx, rx) = if p.from_client { (cconn, sconn) } else { (sconn, cconn) };
+        let got: Arc<Mutex<Vec<Vec<u8>>>> = Arc::new(Mutex::new(Vec::new()));
+        {
+            let (rx, got) = (rx.clone(), got.clone());
+            tokio::spawn(async move {
+                while let Ok(d) = rx.receive_datagram().await {
+                    got.lock().unwrap().push(d.payload().to_vec());
+                }
+            });
+        }
+        let mut problems: Vec<(String, String)> = Vec::new();
+        let mut sent = Vec::new();
+        for (i, l) in p.lens.iter().enumerate() {
+            let Some(m) = tx.max_datagram_size() else { return Err("no datagram support".into()) };
+            let len = if *l < 0 { m.saturating_sub((-*l - 1) as usize) } else { (*l as usize).min(m) };
+            let payload = payload_of(p.seed, i as u64, len);
+            match tx.send_datagram(&payload) {
+                Ok(()) => sent.push(payload),
+                Err(e) => problems.push(("C03/size-contract".into(), format!("outgoing datagram buffer of {} bytes: payload of {len} bytes (max_datagram_size() = {m}) refused: {e:?}", p.send_buf))),
+            }
+            if tx.send_datagram(&vec![0u8; m + 1]).is_ok() {
+                problems.push(("C03/size-contract".into(), format!("payload of {} bytes accepted although max_datagram_size() = {m}", m + 1)));
+            }
+            net.quiesce(Duration::from_millis(30), Duration::from_secs(5)).await;
+        }
+        tokio::time::sleep(Duration::from_millis(300)).await;
+        let got = got.lock().unwrap().clone();
+        for s in &sent {
+            if !got.iter().any(|g| g == s) {
+                problems.push(("C03/altered-datagram".into(), format!("a {}-byte datagram sent alone on a loss-free network did not arrive byte-identical ({} arrived)", s.len(), got.len())));
+            }
+        }
+        drop(pair);
+        Ok::<_, String>((problems, sent.len()))
+    });
+    sut::finish_exec(&mut ex, &netslot, trace);
+    if !out.panics.is_empty() {
+        ex.violation("C03/panic", out.panics.join(" | "));
+        return ex;
+    }
+    match out.value {
+        None => ex.violation("C03/run-did-not-finish", "exceeded 120 s simulated".into()),
+        Some(Err(e)) => ex.violation("C03/setup", e),
+        Some(Ok((problems, n))) => {
+            ex.nontrivial = n > 0;
+            ex.probe("datagrams_sent_one_at_a_time", n as u64);
+            if let Some((c, d)) = problems.into_iter().next() {
+                ex.violation(&c, d);
+            }
+        }
+    }
+    ex
+}
+
+pub struct C03SmallBuf;
+
+impl TypedScenario for C03SmallBuf {
+    type Plan = SmallBufPlan;
+    fn name(&self) -> &'static str {
+        "e2e-small-send-buffer"
+    }
+    fn budget(&self, tier: Tier) -> usize {
+        match tier {
+            Tier::Quick => 600,
+            Tier::Thorough => 60_000,
+        }
+    }
+    fn generate(&self, seed: u64, index: usize, _tier: Tier) -> SmallBufPlan {
+        let mut rng = Rng::new(seed, "c03-smallbuf");
+        let mut net = NetCfg::clean(rng.next_u64());
+        net.lat_min_us = *rng.pick(&[200u64, 1_000, 10_000]);
+        let n = rng.usize(1, 5);
+        SmallBufPlan {
+            seed,
+            rt: RtKnobs::from_rng(&mut rng),
+            net,
+            from_client: index % 2 == 0,
+            send_buf: *rng.pick(&[64usize, 512, 1024, 2048, 4096]),
+            lens: (0..n).map(|_| *rng.pick(&[-1i64, -1, -2, -200, 0, 1, 900, 1100])).collect(),
+        }
+    }
+    fn execute(&self, plan: &SmallBufPlan, trace: bool) -> Exec {
+        exec_small_buf(plan, trace)
+    }
+}
+
 pub fn def() -> PropertyDef {
     PropertyDef {
         id: "C03",
@@ -626,8 +745,9 @@ pub fn def() -> PropertyDef {
             Box::new(Typed(C03E2E { faulty: true })),
             Box::new(Typed(C03BigSid)),
             Box::new(Typed(C03Foreign)),
+            Box::new(Typed(C03SmallBuf)),
         ],
-        rule: "e2e-*: real client and server; the first 28 runs sweep the peer's datagram receive limit (None, 1,2,3,5,8,9,10,11,20,64,1200,1500,65535) on either side, the rest sample it; size-contract probe with no await between max_datagram_size() and the sends (lengths 0,1,m-1,m must not be TooLarge; m+1,m+2,m+10 must be; None exactly when the peer disabled datagrams or nothing fits; probed right after establishment and again at the end of the run on the same handles - with path-MTU discovery enabled on a third of the endpoints the limit has moved in between); 1-4 bursts of 1-12 unique payloads (lengths 0..max incl. max-0..3) in both directions with 1-3 concurrent receive_datagram callers per side; oracle: received multiset is a sub-multiset of the sent one (never altered, merged, truncated, duplicated, framing never visible; payload() == deref). raw-large-session-id: a raw client (which encodes the quarter stream id of its datagrams in every varint length, shortest and non-shortest) burns stream ids so the session id needs a 2-byte (quick) or 4-byte (thorough) quarter stream id; checks delivery, the exact wire form (shortest quarter-id varint + payload) and the size contract with a multi-byte header. 8-byte quarter ids need 2^28 streams and are out of reach in situ. raw-foreign-datagrams: the raw peer interleaves datagrams of the live session (every varint length of the quarter id) with datagrams naming other sessions (incl. ids equal to the live one modulo 2^8 / 2^16 / 2^32) while the application is waiting in receive_datagram or pauses 20 / 150 ms before every call: every payload handed to the application is an own payload, unaltered, and on the unpaced third every own datagram arrives. Non-trivial = something was delivered or a size probe ran, and (fault batch) a fault fired; distinct = distinct plan hashes.",
+        rule: "e2e-*: real client and server; the first 28 runs sweep the peer's datagram receive limit (None, 1,2,3,5,8,9,10,11,20,64,1200,1500,65535) on either side, the rest sample it; size-contract probe with no await between max_datagram_size() and the sends (lengths 0,1,m-1,m must not be TooLarge; m+1,m+2,m+10 must be; None exactly when the peer disabled datagrams or nothing fits; probed right after establishment and again at the end of the run on the same handles - with path-MTU discovery enabled on a third of the endpoints the limit has moved in between); 1-4 bursts of 1-12 unique payloads (lengths 0..max incl. max-0..3) in both directions with 1-3 concurrent receive_datagram callers per side; oracle: received multiset is a sub-multiset of the sent one (never altered, merged, truncated, duplicated, framing never visible; payload() == deref). raw-large-session-id: a raw client (which encodes the quarter stream id of its datagrams in every varint length, shortest and non-shortest) burns stream ids so the session id needs a 2-byte (quick) or 4-byte (thorough) quarter stream id; checks delivery, the exact wire form (shortest quarter-id varint + payload) and the size contract with a multi-byte header. 8-byte quarter ids need 2^28 streams and are out of reach in situ. e2e-small-send-buffer: the sender's outgoing datagram buffer is 64 B-4 kB; 1-5 datagrams of up to exactly max_datagram_size() bytes are sent one at a time (network drained in between): none may be refused as too large, max+1 always is, each arrives byte-identical. raw-foreign-datagrams: the raw peer interleaves datagrams of the live session (every varint length of the quarter id) with datagrams naming other sessions (incl. ids equal to the live one modulo 2^8 / 2^16 / 2^32) while the application is waiting in receive_datagram or pauses 20 / 150 ms before every call: every payload handed to the application is an own payload, unaltered, and on the unpaced third every own datagram arrives. Non-trivial = something was delivered or a size probe ran, and (fault batch) a fault fired; distinct = distinct plan hashes.",
         assumptions: vec![
             "under injected loss the datagram oracle is inclusion (datagrams may be lost or reordered), never equality; UDP-level duplication must be absorbed by QUIC",
             "quinn/rustls/tokio executed for real but trusted; current-thread runtime",
